@@ -1,1 +1,136 @@
-// placeholder
+//! Static well-formedness verifier for emitted bytecode (C10): abstract interpretation of
+//! one block over stack heights, all successor edges followed, recursive on nested blocks.
+
+use rscel::{ByteCode, CelValue};
+
+#[derive(Default, Debug, Clone)]
+pub struct Stats {
+    pub blocks: usize,
+    pub instructions: usize,
+    pub jumps: usize,
+    pub max_height: i64,
+    pub nested_depth: usize,
+}
+
+/// (values required on the stack, net effect)
+fn effect(b: &ByteCode) -> (i64, i64) {
+    use ByteCode::*;
+    match b {
+        Push(_) => (0, 1),
+        Pop => (1, -1),
+        Test => (1, 0),
+        Dup => (1, 1),
+        Not | Neg => (1, 0),
+        Or | And | Add | Sub | Mul | Div | Mod | Lt | Le | Eq | Ne | Ge | Gt | In => (2, -1),
+        Jmp(_) => (0, 0),
+        JmpCond { .. } => (1, -1),
+        MkList(n) => (*n as i64, 1 - *n as i64),
+        MkDict(n) => (2 * *n as i64, 1 - 2 * *n as i64),
+        Index | Access => (2, -1),
+        Call(n) => (*n as i64 + 1, -(*n as i64)),
+        FmtString(n) => (*n as i64, 1 - *n as i64),
+    }
+}
+
+pub fn verify(block: &[ByteCode]) -> Result<Stats, String> {
+    let mut st = Stats::default();
+    verify_block(block, 0, &mut st, "top")?;
+    Ok(st)
+}
+
+fn verify_block(block: &[ByteCode], depth: usize, st: &mut Stats, path: &str) -> Result<(), String> {
+    st.blocks += 1;
+    st.instructions += block.len();
+    st.nested_depth = st.nested_depth.max(depth);
+    let len = block.len();
+    if len == 0 {
+        return Err(format!("{}: empty block leaves no value", path));
+    }
+    // height[pc] = stack height on entry to pc (pc == len is the exit)
+    let mut height: Vec<Option<i64>> = vec![None; len + 1];
+    height[0] = Some(0);
+    let mut work = vec![0usize];
+    let set = |height: &mut Vec<Option<i64>>, work: &mut Vec<usize>, pc: usize, h: i64, from: usize| -> Result<(), String> {
+        match height[pc] {
+            None => {
+                height[pc] = Some(h);
+                work.push(pc);
+                Ok(())
+            }
+            Some(old) if old == h => Ok(()),
+            Some(old) => Err(format!(
+                "{}: paths meeting at pc {} disagree on the stack height ({} vs {} coming from pc {})",
+                path, pc, old, h, from
+            )),
+        }
+    };
+    while let Some(pc) = work.pop() {
+        if pc == len {
+            continue;
+        }
+        let h = height[pc].unwrap();
+        let ins = &block[pc];
+        let (need, eff) = effect(ins);
+        if h < need {
+            return Err(format!(
+                "{}: pc {} ({:?}) needs {} value(s) but a path arrives with {}",
+                path, pc, ins, need, h
+            ));
+        }
+        let nh = h + eff;
+        st.max_height = st.max_height.max(nh);
+        let next = pc + 1;
+        let target = |dist: i32| -> Result<usize, String> {
+            if dist < 0 {
+                return Err(format!("{}: pc {} jumps backwards ({}); control flow must be loop-free", path, pc, dist));
+            }
+            let t = next as i64 + dist as i64;
+            if t > len as i64 {
+                return Err(format!("{}: pc {} jumps to {} beyond the end of the block ({})", path, pc, t, len));
+            }
+            Ok(t as usize)
+        };
+        match ins {
+            ByteCode::Jmp(d) => {
+                st.jumps += 1;
+                let t = target(*d)?;
+                set(&mut height, &mut work, t, nh, pc)?;
+            }
+            ByteCode::JmpCond { dist, .. } => {
+                st.jumps += 1;
+                let t = target(*dist)?;
+                set(&mut height, &mut work, t, nh, pc)?;
+                set(&mut height, &mut work, next, nh, pc)?;
+            }
+            ByteCode::Push(CelValue::ByteCode(inner)) => {
+                let v: Vec<ByteCode> = inner.iter().cloned().collect();
+                verify_block(&v, depth + 1, st, &format!("{}/pc{}", path, pc))?;
+                set(&mut height, &mut work, next, nh, pc)?;
+            }
+            _ => set(&mut height, &mut work, next, nh, pc)?,
+        }
+    }
+    match height[len] {
+        Some(1) => Ok(()),
+        Some(h) => Err(format!("{}: block ends with {} values on the stack instead of exactly one", path, h)),
+        None => Err(format!("{}: the end of the block is unreachable", path)),
+    }
+}
+
+pub fn count_jumps(block: &[ByteCode]) -> usize {
+    block
+        .iter()
+        .map(|b| match b {
+            ByteCode::Jmp(_) | ByteCode::JmpCond { .. } => 1,
+            ByteCode::Push(CelValue::ByteCode(inner)) => {
+                let v: Vec<ByteCode> = inner.iter().cloned().collect();
+                count_jumps(&v)
+            }
+            _ => 0,
+        })
+        .sum()
+}
+
+pub fn has_nested(block: &[ByteCode]) -> bool {
+    block.iter().any(|b| matches!(b, ByteCode::Push(CelValue::ByteCode(_))))
+}
